@@ -47,6 +47,7 @@ V_REQUIRES(l != NULL && V_R_OK(l, sizeof(struct _list)))
 V_ASSIGNS()
 V_ENSURES(V_RET == (ssize_t)l->len)
 ;
+#if !defined(V_POOL_SPAWN) && !defined(V_POOL_NEW)     /* (as a callee; unit thpool.add_threads proves the real function against the stronger contract below) */
 V_CONTRACT
 static int add_threads(m_thpool_t *pool, int num)
 V_REQUIRES(pool == g_pool && num >= 0)
@@ -55,6 +56,39 @@ V_ENSURES(V_RET == g_addthr_ret && g.addthr_calls == V_OLD(g.addthr_calls) + 1 &
           && g_threads->len <= V_OLD(g_threads->len) + (size_t)num && V_IMP(V_RET == 0, g_threads->len == V_OLD(g_threads->len) + (size_t)num))
 ;
 
+#endif
+#ifdef V_POOL_SPAWN
+V_CONTRACT int v_attr_init(pthread_attr_t *a) V_REQUIRES(a != NULL) V_ASSIGNS(*a) V_ENSURES(V_RET == 0);
+V_CONTRACT int v_attr_destroy(pthread_attr_t *a) V_REQUIRES(a != NULL) V_ASSIGNS() V_ENSURES(V_RET == 0);
+V_CONTRACT int v_attr_setdetachstate(pthread_attr_t *a, int d) V_REQUIRES(a != NULL && d == PTHREAD_CREATE_DETACHED) V_ASSIGNS(g.detach_calls) V_ENSURES(V_RET == 0 && g.detach_calls == V_OLD(g.detach_calls) + 1);
+/* thread creation: the k-th attempt of this call fails iff k == g_fail_at */
+V_CONTRACT
+int v_thread_create(pthread_t *t, const pthread_attr_t *a, void *(*f)(void *), void *arg)
+V_REQUIRES(t != NULL && V_RW_OK(t, sizeof(pthread_t)) && a != NULL)
+V_REQUIRES(f == thpool_thread && arg == (void *)g_pool)                                                   /*@C06.every-worker-runs-the-pool-loop-of-this-pool*/
+V_ASSIGNS(*t, g.create_calls)
+V_ENSURES(g.create_calls == V_OLD(g.create_calls) + 1 && V_RET == ((V_OLD(g.create_calls) - g_c0 == g_fail_at) ? g_create_err : 0))
+;
+V_CONTRACT
+int m_list_insert(m_list_t *l, void *data)
+V_REQUIRES(l == g_threads && data != NULL)
+V_ASSIGNS(g_threads->len, g.linsert_calls)
+V_ENSURES(V_RET == 0 && g_threads->len == V_OLD(g_threads->len) + 1 && g.linsert_calls == V_OLD(g.linsert_calls) + 1)
+;
+#define V_SPAWNED(num)  ((size_t)(num) <= g_fail_at ? (size_t)(num) : g_fail_at)          /* threads that come to life: all of them, or those before the failing attempt */
+V_CONTRACT
+static int add_threads(m_thpool_t *pool, int num)
+V_REQUIRES(pool == g_pool && V_POOL_OK && num >= 0 && num <= 255 && g_threads->len + (size_t)num < 256 && g_create_err > 0 && g_create_err < 200
+           && g_c0 == g.create_calls && g_l0 == g_threads->len && g_fc0 == g_free_calls && g_ac0 == g_alloc_calls && g_oom_mask == 0)
+V_ASSIGNS(g_thslot, g.create_calls, g.linsert_calls, g.detach_calls, g_threads->len, g_alloc_calls, g_last_alloc, g_free_calls, g_free_arg, g_free_arg0)
+/* every thread that was created is recorded in the pool's thread list exactly once (so that free can wait for it); creation stops at the first failure, which leaves no record
+ * and gives its slot back; the result is that failure's code, or 0 */
+V_ENSURES(V_RET == ((size_t)num > g_fail_at ? g_create_err : 0) && g_threads->len == g_l0 + V_SPAWNED(num) && g.linsert_calls == V_OLD(g.linsert_calls) + V_SPAWNED(num)
+          && g.create_calls == g_c0 + V_SPAWNED(num) + ((size_t)num > g_fail_at ? 1 : 0))                                                     /*@C06.every-created-worker-is-recorded-exactly-once*/
+V_ENSURES(g_alloc_calls - g_ac0 == g.create_calls - g_c0 && g_free_calls - g_fc0 == ((size_t)num > g_fail_at ? 1 : 0))                        /*@C04.thread-slot-released-iff-its-creation-failed*/
+V_ENSURES(g.detach_calls == V_OLD(g.detach_calls) + ((g_pool->flags & M_THPOOL_DETACHED) ? 1 : 0))
+;
+#endif
 #ifdef V_POOL_ADD
 V_CONTRACT
 int m_thpool_add(m_thpool_t *pool, m_thpool_task task, void *arg)
@@ -196,5 +230,42 @@ V_ENSURES(V_IMP(pool == NULL, V_RET == -EINVAL) && V_IMP(pool != NULL && (V_OLD(
 V_ENSURES(V_IMP(pool != NULL && V_OLD(g_pool->shutdown) == SHUTDOWN_NO && (g_pool->init_state & INITED_STARTED) && g_lock_ret == 0, g.qclear_calls == V_OLD(g.qclear_calls) + 1 && g_tasks->len == 0
                 && g.unlock_calls == V_OLD(g.unlock_calls) + 1))                                                                /*@C06.pending-tasks-dropped-under-the-mutex*/
 V_ENSURES(V_IMP(pool != NULL && V_OLD(g_pool->shutdown) == SHUTDOWN_NO && (g_pool->init_state & INITED_STARTED) && g_lock_ret != 0, V_RET == g_lock_ret && g.qclear_calls == V_OLD(g.qclear_calls)))
+;
+#endif
+
+#ifdef V_POOL_NEW
+/* m_thpool_new(): staged construction; a pool either comes back fully built (every stage recorded, threads spawned unless lazy) or not at all */
+V_CONTRACT m_list_t *m_list_new(m_list_cmp c, m_list_dtor fn) V_REQUIRES(1) V_ASSIGNS(g.lnew_calls) V_ENSURES(g.lnew_calls == V_OLD(g.lnew_calls) + 1 && (g_fail_stage == 1 ? V_RET == NULL : __CPROVER_pointer_equals(V_RET, g_threads)));
+V_CONTRACT m_queue_t *m_queue_new(m_queue_dtor fn) V_REQUIRES(1) V_ASSIGNS(g.qnew_calls) V_ENSURES(g.qnew_calls == V_OLD(g.qnew_calls) + 1 && (g_fail_stage == 2 ? V_RET == NULL : __CPROVER_pointer_equals(V_RET, g_tasks)));
+V_CONTRACT int v_mutex_init(pthread_mutex_t *m, const pthread_mutexattr_t *a) V_REQUIRES(m != NULL) V_ASSIGNS(*m, g.minit_calls) V_ENSURES(g.minit_calls == V_OLD(g.minit_calls) + 1 && V_RET == (g_fail_stage == 3 ? 11 : 0));
+V_CONTRACT int v_cond_init(pthread_cond_t *c, const pthread_condattr_t *a) V_REQUIRES(c != NULL) V_ASSIGNS(*c, g.cinit_calls) V_ENSURES(g.cinit_calls == V_OLD(g.cinit_calls) + 1 && V_RET == (g_fail_stage == 4 ? 11 : 0));
+V_CONTRACT
+static int add_threads(m_thpool_t *pool, int num)
+V_REQUIRES(pool != NULL && num >= 0)
+V_ASSIGNS(g.addthr_calls, g.addthr_num)
+V_ENSURES(g.addthr_calls == V_OLD(g.addthr_calls) + 1 && g.addthr_num == num && V_RET == (g_fail_stage == 5 ? 11 : 0))
+;
+V_CONTRACT
+int m_thpool_free(m_thpool_t **pool, bool wait_all)
+V_REQUIRES(pool != NULL && *pool != NULL && !wait_all)
+V_ASSIGNS(*pool, g.tpfree_calls, g.tpfree_state)
+V_ENSURES(V_RET == 0 && *pool == NULL && g.tpfree_calls == V_OLD(g.tpfree_calls) + 1 && g.tpfree_state == (int)V_OLD((*pool)->init_state))
+;
+V_CONTRACT
+m_thpool_t *m_thpool_new(uint8_t thread_count, m_thpool_flags flags)
+V_REQUIRES(v_base_ok() && g_threads != NULL && g_tasks != NULL && g_fail_stage <= 5 && g_oom_mask <= 1)
+V_ASSIGNS(g.lnew_calls, g.qnew_calls, g.minit_calls, g.cinit_calls, g.addthr_calls, g.addthr_num, g.tpfree_calls, g.tpfree_state, g_alloc_calls, g_last_alloc)
+V_ENSURES(V_IMP(thread_count == 0, V_RET == NULL && g_alloc_calls == V_OLD(g_alloc_calls)))
+/* success: every stage was reached and recorded, the pool carries the configured size and flags, workers are spawned at once unless the pool is lazy */
+V_ENSURES(V_IMP(thread_count > 0 && !(V_OLD(g_oom_mask) & 1) && (g_fail_stage == 0 || (g_fail_stage == 5 && (flags & M_THPOOL_LAZY))),
+                V_RET != NULL && V_RET->init_state == (INITED_THREADS | INITED_TASKS | INITED_MUT | INITED_COND | INITED_STARTED) && V_RET->max_threads == thread_count && V_RET->flags == flags
+                && V_RET->shutdown == SHUTDOWN_NO && V_RET->threads == g_threads && V_RET->tasks == g_tasks && g.tpfree_calls == V_OLD(g.tpfree_calls)
+                && g.addthr_calls == V_OLD(g.addthr_calls) + ((flags & M_THPOOL_LAZY) ? 0 : 1) && V_IMP(!(flags & M_THPOOL_LAZY), g.addthr_num == thread_count)))      /*@C06.pool-comes-back-fully-built-with-its-configured-size*/
+/* a failing stage: what was built so far is torn down (exactly the stages recorded up to there) and nothing is returned */
+V_ENSURES(V_IMP(thread_count > 0 && !(V_OLD(g_oom_mask) & 1) && g_fail_stage != 0 && !(g_fail_stage == 5 && (flags & M_THPOOL_LAZY)),
+                V_RET == NULL && g.tpfree_calls == V_OLD(g.tpfree_calls) + 1
+                && g.tpfree_state == (g_fail_stage == 1 ? 0 : g_fail_stage == 2 ? INITED_THREADS : g_fail_stage == 3 ? (INITED_THREADS | INITED_TASKS) : g_fail_stage == 4 ? (INITED_THREADS | INITED_TASKS | INITED_MUT)
+                                      : (INITED_THREADS | INITED_TASKS | INITED_MUT | INITED_COND))))                                                                     /*@C06.half-built-pool-is-torn-down-not-returned*/
+V_ENSURES(V_IMP(thread_count > 0 && (V_OLD(g_oom_mask) & 1), V_RET == NULL && g.tpfree_calls == V_OLD(g.tpfree_calls)))
 ;
 #endif
